@@ -1,8 +1,9 @@
-import AlgoVerif.Common
-/-! Line-protocol component for C15 — not built yet. -/
+import AlgoVerif.Driver.C01
+/-! Line-protocol component for C15: the same state machine as C01 (`height`, `traverse vlr/lvr`
+and `dump` are the calls C15's harness uses). -/
 namespace AlgoVerif.C15.Driver
 
-def runCase (_hdr : List String) (ops : List String) : List String :=
-  ops.map fun _ => "bad-case"
+def runCase (hdr : List String) (ops : List String) : List String :=
+  AlgoVerif.C01.Driver.runCase hdr ops
 
 end AlgoVerif.C15.Driver
